@@ -17,6 +17,24 @@ ExhSaves == {a \in SaveArgs : a.n = 0 \/ (a.h = 0 /\ a.si = 0)}
 \* systematic export: entries-only saves of 2 or 3 entries, or a hard-state-only save; the view keeps one
 \* path per distinct store state and step count
 BfsSaves == {a \in SaveArgs : (a.n \in {2, 3} /\ a.h = 0 /\ a.si = 0) \/ (a.n = 0 /\ a.h = 1 /\ a.si = 0)}
-viewD == <<st, open, nr, Len(hist)>>
+viewD == <<st, open, nr, nb, Len(hist)>>
+\* ---- the size-rotation family (MaxBig > 0) ----
+\* exhaustive: entries-only saves (hard state / snapshot ride on saves without entries), every mask
+\* systematic export: entries-only saves of 2..MaxBatch entries that carry at least one Big payload, or small
+\* saves of exactly MaxBatch entries (to fill files with old tails); one path per distinct state and step count
+BfsSizeSaves == {a \in SaveArgs : a.n \in 2..MaxBatch /\ a.h = 0 /\ a.si = 0}
+BfsSizeMasks(n) == {bm \in Masks(n) : bm # 0 \/ n = MaxBatch}
+\* simulation: per offered Save one mask with one or two Big payloads (or a third of the entries) and the
+\* all-small mask, so that the MaxBig payloads are spread over several saves
+SimMaskOf(x, n) == LET few == {bm \in Masks(n) : bm # 0 /\ NBig(bm, n) <= 2}
+                   IN IF few = {} THEN {0} ELSE {RandomElement(few)}
+SimMasks(n) == IF n = 0 THEN {0} ELSE SimMaskOf(ns, n) \cup (IF RandomElement(1..3) = 1 THEN {0} ELSE {})
 Export == (Len(hist) = Depth) => PrintT(<<"TRACE", ToJson(hist)>>)
+\* size-rotation family: only behaviours in which some file was rolled by size (a file that is not the
+\* current one has fewer than FileCap slots)
+Rolled == \E k \in 1..Len(hist) : \E j \in 1..(Len(hist[k].exp.files) - 1) : hist[k].exp.files[j].n < FileCap
+\* ... in which a Huge payload was saved
+HasHuge == \E k \in 1..Len(hist) : hist[k].a = "Save" /\ hist[k].args.bm # 0 /\ hist[k].args.bc = Huge
+ExportHuge == (Len(hist) = Depth /\ HasHuge) => PrintT(<<"TRACE", ToJson(hist)>>)
+ExportRolled == (Len(hist) = Depth /\ Rolled) => PrintT(<<"TRACE", ToJson(hist)>>)
 =============================================================================
